@@ -8,8 +8,8 @@ NAME="$1"; shift
 IDS="${*:-C01 C02 C03 C04 C05 C06 C07 C08 C09 C10 C11 C12 C13 C14 C15 C16 C17 C18 C19 C20}"
 D="/verif/seeded/$NAME"
 # one fixed scratch path and one shared target directory: only the engine and the harness are rebuilt per seed
-W="/tmp/sens/wt"
-export CARGO_TARGET_DIR=/tmp/sens/target
+W="/tmp/sens/wt${SEED_LANE:-}"
+export CARGO_TARGET_DIR=/tmp/sens/target${SEED_LANE:-}
 mkdir -p /tmp/sens
 git -C /repo worktree remove --force "$W" >/dev/null 2>&1; rm -rf "$W"
 git -C /repo worktree add -q --detach "$W" HEAD || exit 2
